@@ -198,6 +198,26 @@ Theorem C15_roland_checksum :
      gs_dt1 time dev body = ev_sysex_raw time (240 :: GS_DT1 dev body)).
 Proof. split; [exact roland_checksum_law | exact gs_dt1_eq]. Qed.
 
+(* every {..} group of a message carries its own checksum (after repo fix: the sum starts from 0 at every group): the loop
+   outside a group, with ANY sum s left behind by earlier groups, writes the next group with the checksum of that group
+   alone; the second statement spells it out for two groups in one message *)
+Theorem C15_roland_checksum_every_group :
+  (forall pre body post s, Forall (fun x => x <> -1) pre -> no_marker body ->
+     let cs := roland_checksum (map as_u8 body) in
+     sysex_sum_loop (pre ++ [-1] ++ body ++ [-2] ++ post) false s
+       = map as_u8 pre ++ map as_u8 body ++ [cs] ++ sysex_sum_loop post false (zsum body) /\
+     (zsum (map as_u8 body) + cs) mod 128 = 0) /\
+  (forall time pre b1 mid b2 post,
+     Forall (fun x => x <> -1) pre -> no_marker b1 -> Forall (fun x => x <> -1) mid -> no_marker b2 ->
+     ev_sysex time (pre ++ [-1] ++ b1 ++ [-2] ++ mid ++ [-1] ++ b2 ++ [-2] ++ post) true
+       = ev_sysex_raw time (map as_u8 pre ++ map as_u8 b1 ++ [roland_checksum (map as_u8 b1)] ++
+                            map as_u8 mid ++ map as_u8 b2 ++ [roland_checksum (map as_u8 b2)] ++ sysex_sum_loop post false (zsum b2))).
+Proof. split; [exact roland_checksum_every_group | exact roland_checksum_two_groups]. Qed.
+Example C15_two_groups_example :
+  e_data (ev_sysex 0 [240; 65; 16; 66; 18; -1; 64; 0; 127; 0; -2; -1; 64; 1; 48; 5; -2; 247] true)
+  = Some [240; 65; 16; 66; 18; 64; 0; 127; 0; 65; 64; 1; 48; 5; 10; 247].
+Proof. vm_compute. reflexivity. Qed.
+
 (* resets and universal device control: the standard strings (stored with their F0; the writer emits F0 len rest) *)
 Theorem C15_resets :
   (forall time dev,
@@ -288,6 +308,7 @@ Print Assumptions C15_timesig.
 Print Assumptions C15_bend.
 Print Assumptions C15_rpn_nrpn.
 Print Assumptions C15_roland_checksum.
+Print Assumptions C15_roland_checksum_every_group.
 Print Assumptions C15_resets.
 Print Assumptions C15_text.
 Print Assumptions C15_utf8.
